@@ -248,6 +248,12 @@ class gen_dfs_percolation:
         "contains-dfs-tree": "forall(lambda d, i, j: implies(final(g_dfs_maze).connection_list[d, i, j], result.connection_list[d, i, j]), None, None, None)",
     }
     exit_lemmas = ["reach_mono(final(g_dfs_maze), result)"]
+    ensures["C12.visited-once"] = "distinct_rows(result.generation_meta['visited_cells'])"
+    result = T.RecT(
+        "LatticeMaze",
+        connection_list=T.GridT("bool", [2, None, None]),
+        generation_meta=T.PyDictT(func_name=T.Const("gen_dfs_percolation"), start_coord=T.Coord, fully_connected=T.Bool, visited_cells=T.ListT(T.CoordTup)),
+    )
     props = ["C01", "C12"]
 
 
